@@ -3,7 +3,12 @@ import json
 import re
 
 def unsafe_decode(string):
-  return json.loads(string)
+  try:
+    return json.loads(string)
+  except ValueError as err:
+    raise gfapy.FormatError(
+      "{} is not a valid JSON string\n".format(repr(string))+
+      "error message: {}".format(str(err))) from err
 
 def decode(string):
   validate_all_printable(string)
@@ -17,10 +22,10 @@ def validate_encoded(string):
   try:
     json.loads(string)
   except Exception as err:
-    raise Exception(
+    raise gfapy.FormatError(
     "{} is not a valid JSON string\n".format(repr(string))+
     "json.loads raised a {} exception\n".format(err.__class__.__name__)+
-    "error message: {}").format(str(err)) from err
+    "error message: {}".format(str(err))) from err
 
 def validate_decoded(obj):
   if isinstance(obj, gfapy.FieldArray):
